@@ -2,8 +2,8 @@
     the root loop; the model threads the pair [(t_best, r_best)] with [nr_try_roots].  The model returns
     [None] where the code would panic on [r_best.unwrap()]; the statement is agreement wherever the
     model is defined. *)
-From Coq Require Import ZArith QArith List Bool Floats.
-From KV Require Import Scalar Geom Curves Solvers Nearest.
+From Coq Require Import ZArith QArith List Bool Floats Lia.
+From KV Require Import Scalar Geom Curves Solvers ToQuads Nearest.
 From KVGen Require Gen.
 From KVBridge Require Import BridgeLib.
 Import ListNotations.
@@ -32,4 +32,80 @@ Proof.
     destruct (nr_eval_t p (t1, r1) (fofZ 1) (q2 q)) as [t2 r2]. cbn [fst snd].
     destruct r2; [reflexivity | exact I].
   - cbn [fst snd]. destruct rb; [reflexivity | exact I].
+Qed.
+
+(** ** [CubicBez::nearest] (C09): [for (t0, t1, q) in self.to_quads(accuracy)] consumes the [ToQuads] iterator, i.e. the
+    generated [next] is called until it returns [None] ([tr_drain], at most [S (n - i)] times).  That list is the model's
+    [nr_quads_piece c n i] for [i = 0 .. n-1] ([drain_to_quads]); the generated loop over it, which threads
+    [(best_r, best_t)], is the model's [cubic_nearest_loop_with quad_nearest] over the indices, which threads the pair
+    [(best_t, best_r)] ([cubic_loop]).  The model is [None] where the code would panic ([best_r.unwrap()], or
+    [r_best.unwrap()] inside [QuadBez::nearest]): agreement wherever the model is defined. *)
+Section CubicNearest.
+Context {T : Type} `{Scalar T}.
+
+(* owner: to_quads_next *)
+Lemma sim_to_quads_next (c : CubicBez T) (i n : Z) :
+  Gen.to_quads_next (c, i, n) = (if Z.eqb i n then (None, (c, i, n)) else (Some (nr_quads_piece c n i), (c, Z.add i 1, n))).
+Proof. reflexivity. Qed.
+
+Lemma drain_S {St A : Type} (next : St -> option A * St) (k : nat) (s : St) :
+  Gen.tr_drain next (S k) s = match next s with (Some a, s') => a :: Gen.tr_drain next k s' | (None, _) => [] end.
+Proof. reflexivity. Qed.
+
+Lemma drain_to_quads (c : CubicBez T) (n : Z) : forall (k : nat) (i : Z), n = Z.add i (Z.of_nat k) ->
+  Gen.tr_drain Gen.to_quads_next (S k) (c, i, n) = map (fun j => nr_quads_piece c n (Z.add i (Z.of_nat j))) (seq 0 k).
+Proof.
+  induction k as [|k IH]; intros i E; rewrite drain_S, sim_to_quads_next.
+  - replace (Z.eqb i n) with true by (symmetry; apply Z.eqb_eq; lia). reflexivity.
+  - replace (Z.eqb i n) with false by (symmetry; apply Z.eqb_neq; lia).
+    cbn [seq map]. rewrite Z.add_0_r. f_equal.
+    rewrite (IH (Z.add i 1)) by lia. rewrite <- seq_shift, map_map.
+    apply map_ext. intro j. f_equal. lia.
+Qed.
+
+End CubicNearest.
+
+(* owner: cubic_nearest *)
+Lemma sim_cubic_nearest : forall (T : Type) (S : Scalar T) (self_ : (CubicBez T)) (p_ : (Point T)) (accuracy_ : T), match KV.Nearest.cubic_nearest self_ p_ accuracy_ with Some tr_r => (Gen.cubic_nearest self_ p_ accuracy_) = tr_r | None => True end.
+Proof.
+  intros T S c p acc.
+  cbv beta zeta delta [Gen.cubic_nearest KV.Nearest.cubic_nearest KV.Nearest.cubic_nearest_with KV.Nearest.cubic_nearest_n_with].
+  change (KV.ToQuads.to_quads_count c acc) with (nr_quads_count c acc).
+  assert (N : (1 <= nr_quads_count c acc)%Z) by (unfold nr_quads_count; cbv zeta; apply Z.le_max_r).
+  set (n := nr_quads_count c acc) in *. cbn [fst snd].
+  rewrite Z.sub_0_r.
+  rewrite (drain_to_quads c n (Z.to_nat n) 0%Z) by lia.
+  rewrite Z2Nat.id by lia.
+  replace (map (fun j => nr_quads_piece c n (0 + Z.of_nat j)) (seq 0 (Z.to_nat n)))
+     with (map (nr_quads_piece c n) (map Z.of_nat (seq 0 (Z.to_nat n)))) by (rewrite map_map; reflexivity).
+  generalize (map Z.of_nat (seq 0 (Z.to_nat n))). intro l.
+  (* the generated loop is the model's, up to the order of the two components *)
+  match goal with |- context [?F (map (nr_quads_piece c n) l) None (fofZ 0)] =>
+    assert (E : forall (l : list Z) rb tb,
+               match cubic_nearest_loop_with quad_nearest c p n l (tb, rb) with
+               | Some (t, r) => F (map (nr_quads_piece c n) l) rb tb = (r, t)
+               | None => True
+               end)
+  end.
+  { clear l. induction l as [|i l IH]; intros rb tb; [reflexivity|].
+    cbn [map cubic_nearest_loop_with].
+    destruct (nr_quads_piece c n i) as [[t0 t1] q].
+    destruct (quad_nearest q p) as [[nt nd]|]; [|exact I].
+    unfold nr_cubic_step. cbn [fst snd].
+    destruct rb as [b|]; [destruct (nd <? b)%S|]; apply IH. }
+  specialize (E l None (fofZ 0)). unfold nr_init. unfold f0 in *.
+  destruct (cubic_nearest_loop_with quad_nearest c p n l (fofZ 0, None)) as [[t [r|]]|]; try exact I.
+  rewrite E. reflexivity.
+Qed.
+
+Lemma br_cubic_nearest : forall (T : Type) (S : Scalar T) (self_ : (CubicBez T)) (p_ : (Point T)) (accuracy_ : T), match KV.Nearest.cubic_nearest self_ p_ accuracy_ with Some tr_r => (Gen.cubic_nearest self_ p_ accuracy_) = tr_r | None => True end.
+Proof. exact sim_cubic_nearest. Qed.
+
+(** [PathSeg::nearest]: the dispatch over the three curve types *)
+Lemma br_seg_nearest : forall (T : Type) (S : Scalar T) (self_ : (PathSeg T)) (p_ : (Point T)) (accuracy_ : T), match KV.Nearest.seg_nearest self_ p_ accuracy_ with Some tr_r => (Gen.seg_nearest self_ p_ accuracy_) = tr_r | None => True end.
+Proof.
+  intros T S [l|q|c] p acc; cbv beta iota delta [Gen.seg_nearest KV.Nearest.seg_nearest].
+  - reflexivity.
+  - destruct (quad_nearest q p); [reflexivity | exact I].
+  - destruct (cubic_nearest c p acc); [reflexivity | exact I].
 Qed.
